@@ -86,6 +86,14 @@ def cases(tier, seed):
         c = phylo.random_case(rng, t, k, None, None, ncols=int(rng.integers(2, 9)))
         c["big"] = True
         out.append(c)
+    # discrete traits: every third case with a general data type takes its tip data from a taxon attribute (AttributePattern)
+    for i, c in enumerate(out):
+        if c["datatype"]["kind"] == "general" and i % 3 == 1:
+            out[i] = phylo.as_attribute_case(c)
+    # every fifth alignment is read from a FASTA file (the 'file' form torchtree-cli writes), sequences wrapped over several lines
+    for i, c in enumerate(out):
+        if i % 5 == 2 and not c.get("attribute_pattern"):
+            c["aln_file"] = {"wrap": [1, 2, 3, 60][(i // 5) % 4], "blank": bool((i // 5) % 2)}
     return out
 
 
@@ -163,6 +171,46 @@ def run_case(case):
                 sig = "C01:value:invariant-category:P(0)-roundoff-dominates-site-likelihood"
         V.append(tt.viol(sig, "log-likelihood %.15g, exact marginalisation (%s) %.15g, rel err %.3g [subst %s, site %s, datatype %s, n=%d]"
                          % (lib, method, ref, err, sk, case["site"]["kind"], case["datatype"]["kind"], n), case=case, lib=lib, ref=ref))
+    h = int(hashlib.md5(repr(case).encode()).hexdigest()[:8], 16)
+    if not V and not case.get("big") and sk not in ("LG", "WAG", "MG94") and h % 3 == 0:
+        # the same model object after its parameters received new values through the public parameter interface: still the exact
+        # likelihood of the (new) parameter values
+        import copy
+
+        import torch
+
+        urng = np.random.default_rng(h)
+        c2 = copy.deepcopy(case)
+        changed = []
+        for name in ("kappa", "rates", "alpha", "beta", "pi"):
+            if name not in c2["subst"] or "sm." + name not in dic:
+                continue
+            old_v = c2["subst"][name]
+            if name == "pi":
+                new_v = urng.dirichlet([3.0] * len(old_v)).tolist()
+            elif isinstance(old_v, list):
+                new_v = [float(x * urng.uniform(0.4, 2.5)) for x in old_v]
+            else:
+                new_v = float(old_v * urng.uniform(0.4, 2.5))
+            c2["subst"][name] = new_v
+            dic["sm." + name].tensor = torch.tensor(new_v if isinstance(new_v, list) else [new_v], dtype=torch.float64)
+            changed.append("sm." + name)
+        for name in ("pinv", "shape", "mu"):
+            if name not in c2["site"] or "site." + name not in dic:
+                continue
+            new_v = float(urng.uniform(0.02, 0.8)) if name == "pinv" else float(c2["site"][name] * urng.uniform(0.5, 2.0))
+            c2["site"][name] = new_v
+            dic["site." + name].tensor = torch.tensor([new_v], dtype=torch.float64)
+            changed.append("site." + name)
+        if changed:
+            lib2 = float(tt.as_np(like(), "C01:not-a-tensor", "log-likelihood").reshape(-1)[0])
+            ref2, _, _ = phylo.ref_loglik(c2, "brute", emp)
+            C["compared_after_update"] = 1
+            if np.isfinite(ref2):
+                err2 = abs(lib2 - ref2) / max(abs(ref2), 1.0)
+                if not np.isfinite(lib2) or err2 > 1e-9:
+                    V.append(tt.viol("C01:value-after-update:%s" % sk, "after assigning new values to %s: log-likelihood %.15g, exact marginalisation %.15g, rel err %.3g [subst %s, site %s]"
+                                     % (", ".join(changed), lib2, ref2, err2, sk, case["site"]["kind"]), case=case, updated=c2["subst"], updated_site=c2["site"]))
     fp = hashlib.md5(repr(case).encode()).hexdigest()[:16] if _nontrivial(case) else None
     sample = {k: case[k] for k in ("newick", "names", "tree", "subst", "site", "use_ambiguities", "use_tip_states")}
     sample["seqs"] = case["seqs"]
